@@ -5,7 +5,8 @@ Stage A: TLC checks the TLA+ reference (Snow3G, Zuc, Aes128, Eea) against every 
 Stage B: TLC enumerates the parameter lattice (bearer x direction grid, every bit length, key/COUNT patterns incl.
          walking bits); the driver replays it into security.NEA1/2/3, security.NASEncrypt, snow3g.GetKeyStream,
          zuc.Zuc and records seeded random calls.
-Stage C: TLC recomputes every output with the reference and compares the first `length` bits."""
+Stage C: TLC recomputes every output with the reference and compares the first `length` bits.
+Added after seeded rounds 3-4: payloads of 8193 / 65 537 octets and lengths 2^k, 2^k-1 in the quick lattice; the frozen corner points of the ZUC arithmetic (tables/vectors/zuc_corners.json, re-established by TLC in stage A) as generated cases; recorded calls run with the library's logger at trace level."""
 import os, sys
 sys.path.insert(0, os.path.dirname(os.path.abspath(__file__)))
 from seclib import *
